@@ -88,6 +88,9 @@ class LinearRun:
         self.steps = []  # dicts
         self.rng = rng
         self.resolved_ops = []
+        # BLIND histories (every other case): during the history the estimates are read off the table directly (columns from the probe sketch),
+        # never through query() — reading through the API re-hashes and can hide (or cause) state that only a write-after-write sequence exposes
+        self.blind = (len(case["ops"]) + case["width"]) % 2 == 0
 
     def _kid(self, k):
         if k not in self.kid:
@@ -103,11 +106,21 @@ class LinearRun:
         c = self.sk[i]
         return _tab(c.cms), int(c.n_added()), int(c.n_records())
 
-    def queries(self, i):
+    def direct_queries(self, i):
+        tab = self.sk[i].cms
+        out = []
+        for kid in range(len(self.allkeys)):
+            cols = self.cols(kid)
+            out.append(min(int(tab[r][cols[r]]) for r in range(self.depth)))
+        return out
+
+    def queries(self, i, api=False):
+        if self.blind and not api:
+            return self.direct_queries(i)
         return [int(self.sk[i].query(k)) for k in self.allkeys]
 
     def _value(self, i, kid):
-        q = int(self.sk[i].query(self.allkeys[kid]))
+        q = self.direct_queries(i)[kid] if self.blind else int(self.sk[i].query(self.allkeys[kid]))
         return value_near(self.rng, CAP, CAP - q)
 
     def _single_add(self, i, kid, v, via):
@@ -180,7 +193,11 @@ class LinearRun:
                 finally:
                     os.unlink(path)
                 self.steps.append({"op": "saveload", "s": i, "before": before, "after": self.state(i)})
-        self.final_q = [self.queries(i) for i in range(len(self.sk))]
+        self.final_q = [self.queries(i, api=True) for i in range(len(self.sk))]
+        if self.blind:
+            for i in range(len(self.sk)):
+                if self.direct_queries(i) != self.final_q[i]:
+                    self.steps.append({"op": "final-query-mismatch", "s": i, "direct": self.direct_queries(i), "api": self.final_q[i]})
         self.final_state = [self.state(i) for i in range(len(self.sk))]
         return self
 
@@ -281,6 +298,8 @@ class LinearRun:
                     for j in range(nk):
                         if s["qa"][j] < s["qa_before"][j] or s["qa"][j] < s["qb_before"][j]:
                             fails.append({"what": f"C18 estimate fell on merge: {s['qa_before'][j]},{s['qb_before'][j]} -> {s['qa'][j]}"})
+            if s["op"] == "final-query-mismatch":
+                fails.append({"what": f"query() of sketch {s['s']} disagrees with its own table: table minima {s['direct']}, query() {s['api']} (the column ids in use are not the keys')"})
             if s["op"] == "saveload" and s["before"] != s["after"] and ("C01" in props or "C10" in props):
                 fails.append({"what": "save/load changed the linear sketch state"})
         for f in fails:
